@@ -177,7 +177,13 @@ def d2(cx: Cx, ob: Ob) -> None:
             if not is_const(kw.get("return_none"), True):
                 ob.violate(fn.qualname, where(fn, line), "parse calls parse_uri without return_none=True (legacy (None, None) result)", detail="return-none")
     if n_uri == 0:
-        ob.violate(fn.qualname, fn.where, "parse never returns the URI parse", detail="no-uri-branch")
+        # no return goes through parse_uri: either the URI side is gone, or it is answered another way (through
+        # compress and a re-split of its CURIE, ...), which this rule does not follow
+        other = [t for t, _ in s.returns() if any(self_call(x, me) and x[1][2] in ("compress", "compress_strict", "is_uri") for x in subterms(t))] + [g for p_ in s.paths for g in p_.events if g.kind == "guard" and any(self_call(x, me) and x[1][2] in ("compress", "compress_strict") for x in subterms(g.a))]
+        if other:
+            ob.undecide("parse answers for URIs without parse_uri (through compress / a re-split of the CURIE): that it returns what parse_uri returns is not decided")
+        else:
+            ob.violate(fn.qualname, fn.where, "parse never returns the URI parse", detail="no-uri-branch")
     if n_curie == 0:
         ob.violate(fn.qualname, fn.where, "parse never returns the CURIE parse", detail="no-curie-branch")
 
